@@ -113,7 +113,7 @@ def w3_source(p):
         "utype.register_transformer(T)(conv('base'))",
         "utype.register_encoder(T)(enc('base'))",
         "class H(Schema):",
-        "    t: T",
+        "    t: T = None",
         "    ts: List[TS] = Field(default_factory=list)",
         ""])
 
@@ -175,7 +175,11 @@ def run_op(mod, op, params):
         cls = getattr(mod, op["cls"])
         return utype.type_transform(op["value"], cls)
     if k == "convert_field":
-        return mod.H(t=op["value"], ts=[op["value"]])
+        # one conversion per operation: a parse that converts several values while a registration lands
+        # between them may legitimately see the old converter for one and the new one for the other
+        if op.get("field", "t") == "t":
+            return mod.H(t=op["value"])
+        return mod.H(ts=[op["value"]])
     if k == "register":
         cls = [getattr(mod, c) for c in op["classes"]]
         utype.register_transformer(*cls, allow_subclasses=op.get("sub", True), priority=op.get("priority", 0))(mod.conv(op["tag"]))
@@ -282,7 +286,7 @@ def generate(rng, tier):
                 elif r < 0.65:
                     ops.append({"op": "convert", "cls": rng.choice(["T", "TS"]), "value": rng.choice([1, 2])})
                 elif r < 0.85:
-                    ops.append({"op": "convert_field", "value": rng.choice([1, 2])})
+                    ops.append({"op": "convert_field", "value": rng.choice([1, 2]), "field": rng.choice(["t", "ts"])})
                 else:
                     ops.append({"op": "encode", "cls": rng.choice(["T", "TS"]), "value": 5})
             ths.append(ops)
